@@ -198,6 +198,19 @@ pub struct LockSpec {
     /// expanded, somebody else's must be refused)
     #[serde(default)]
     pub existing: Option<u16>,
+    /// send the identifier WITHOUT an unlocking duration: that is no lock at all, the identifier
+    /// must be ignored (only set by C14's probes)
+    #[serde(default)]
+    pub no_duration: bool,
+}
+impl LockSpec {
+    pub fn dur(&self) -> Option<u64> {
+        if self.no_duration {
+            None
+        } else {
+            Some(self.duration)
+        }
+    }
 }
 pub fn lock_strat() -> impl Strategy<Value = LockSpec> {
     (
@@ -205,7 +218,7 @@ pub fn lock_strat() -> impl Strategy<Value = LockSpec> {
         proptest::option::weighted(0.6, 0u8..4),
         proptest::option::weighted(0.3, any::<u16>()),
     )
-        .prop_map(|(duration, id, existing)| LockSpec { duration, id, existing })
+        .prop_map(|(duration, id, existing)| LockSpec { duration, id, existing, no_duration: false })
 }
 
 #[derive(Debug, Clone, Serialize, Deserialize, PartialEq)]
